@@ -64,12 +64,28 @@ def _spec(draw, tier):
         # a deletion right after its insertion is the pattern "deletions undo their insertions"
         if op["op"] == "insert" and draw(st.integers(0, 3)) == 0:
             oplist.append({"op": "delete_channel", "mech": op["mech"], "rows": op["rows"], "pick": 0.0, "same_as_insert": True})
+        # a second insertion of the same mechanism elsewhere must leave the customised first one alone
+        if op["op"] == "insert" and draw(st.integers(0, 3)) == 0:
+            oplist.append({"op": "set", "key": draw(st.sampled_from(["chan_param", "chan_state"])), "mech": op["mech"], "rows": op["rows"],
+                           "pick": 0.0, "u": draw(fl(0.0, 1.0))})
+            oplist.append({"op": "insert", "mech": op["mech"], "rows": draw(ops.ROWS)})
         # ... and a view-level deletion after (several) matching insertions on other rows
         follow = {"record": "delete_recordings", "stimulate": "delete_stimuli", "clamp": "delete_clamps", "make_trainable": "delete_trainables"}
         if op["op"] in follow and draw(st.integers(0, 2)) == 0:
             second = dict(op, rows=draw(ops.ROWS))
             oplist.append(second)
-            d = {"op": follow[op["op"]], "rows": draw(st.sampled_from([op["rows"], second["rows"], "all"]))}
+            cands = [op["rows"], second["rows"], "all"]
+            if draw(st.booleans()):
+                # a third one: a partial deletion then leaves several survivors, whose order and pairing with their
+                # values must stay as inserted
+                third = dict(op, rows=draw(ops.ROWS))
+                if "amp" in third:
+                    third["amp"] = draw(fl(-0.2, 0.5))
+                if "u" in third:
+                    third["u"] = draw(fl(0.0, 1.0))
+                oplist.append(third)
+                cands = [op["rows"], second["rows"], third["rows"], third["rows"]]
+            d = {"op": follow[op["op"]], "rows": draw(st.sampled_from(cands))}
             if d["op"] == "delete_clamps":
                 d["state"] = draw(st.sampled_from([None, "v"]))
             oplist.append(d)
